@@ -190,6 +190,26 @@ def run(ctx: Ctx):
             items = [codes[:30], codes[30:]]
             ok, out, wire = rc.cat_property([S(x) for x in items])
             push({"k": "cat", "items": items, "ok": ok, "out": [L(x) for x in out] if ok else []}, {"items": items, "path": "cat-align"})
+    # category items handed over as a tuple or as a one-shot iterator are the same items
+    for items in ([L("a"), L("b,c"), L("d e")], [L("only")], [L("x"), L(""), L("z")]):
+        for form in (tuple, "gen", "map", "iter"):
+            ctx.case(("cat-form", str(form), repr(items)), True)
+            ok, out, wire = rc.cat_property([S(x) for x in items], form)
+            push({"k": "cat", "items": items, "ok": ok, "out": [L(x) for x in out] if ok else []}, {"items": items, "path": f"cat handed as {form}"})
+    # strings that cannot be encoded (a lone surrogate; a character outside the requested encoding): refusing them is fine,
+    # returning a DIFFERENT string is not
+    from icalendar.prop import vText as _vT
+    for s_, enc in (("party \ud83c", "utf-8"), ("\udc80x", "utf-8"), ("caf\u00e9 \u20ac", "latin-1"), ("\u4e2d", "ascii")):
+        ctx.case(("unencodable", s_, enc), True)
+        ctx.evaluations += 1
+        try:
+            got = str(_vT.from_ical(_vT(s_, encoding=enc).to_ical().decode(enc)))
+        except Exception:   # noqa: BLE001  (refused)
+            continue
+        push({"k": "codec", "s": L(s_), "out": L(got)}, {"s": L(s_), "path": f"codec with encoding {enc}"})
+        ok, out, wire = rc.text_property(s_) if enc == "utf-8" else (False, None, None)
+        if ok:
+            push({"k": "prop", "s": L(s_), "ok": ok, "out": L(out)}, {"s": L(s_), "path": "prop-unencodable"})
     # Unicode hazards: code points special to str.strip / isprintable / splitlines / normalize / upper (vf/hazards.py)
     from vf import hazards
     # sequences that are escapes in OTHER grammars (RFC 6868 parameter values, URL encoding, C strings, HTML): plain text here
